@@ -140,6 +140,10 @@ class World(DuoWorld):
         from autobahn.wamp.types import RegisterOptions
         for i, p in enumerate(self.procs):
             self.call(resp.register, self.make_endpoint(p), p, options=RegisterOptions(details_arg="details"))
+        # a third endpoint is registered by prefix: calls reach it under URIs of their own, which the INVOCATION names -
+        # and which everything that travels back is bound to
+        self.pfx = "com.secret.pfx"
+        self.call(resp.register, self.make_endpoint(self.pfx), self.pfx, options=RegisterOptions(match="prefix", details_arg="details"))
         self.settle()
         n = 600
         for m in list(self.r.inbox[self.r.cursor:]):
@@ -173,7 +177,8 @@ class World(DuoWorld):
     def make_endpoint(self, proc):
         def endpoint(*a, details=None, **k):
             from autobahn.wamp.exception import ApplicationError
-            self.endpoint_calls.append((proc, tuple(jsonish(list(a))), jsonish(k)))
+            called = getattr(details, "procedure", None) or proc  # (pattern-based registration: the URI actually called)
+            self.endpoint_calls.append((called, tuple(jsonish(list(a))), jsonish(k)))
             op = self.by_tok.get(a[0]) if a else getattr(self, "delivering_op", None)  # (a call without arguments: the one being delivered)
             self.run.log("endpoint", proc, op.tok if op else None)
             if op is not None and getattr(op, "progressive", 0) and details is not None and details.progress is not None:
@@ -317,6 +322,9 @@ class World(DuoWorld):
         op.kind = "publish" if (direction == "event" or (not flip and ch.flag("publish", 0.4))) else "call"
         secret = True if flip else ch.flag("secret-uri", 0.7)
         op.uri = (self.topics if op.kind == "publish" else self.procs)[0 if secret else 1]
+        if op.kind == "call" and secret and not flip and ch.flag("called-through-a-prefix-registration", 0.25):
+            op.uri = "%s.item%d" % (self.pfx, len(self.ops))
+            self.run.probe("call-through-prefix-registration")
         op.reply = "error" if (direction == "error" or (not flip and op.kind == "call" and ch.flag("endpoint-raises", 0.35))) else "ok"
         if op.reply == "error" and not flip and ch.flag("exception-without-arguments", 0.3):
             op.reply = "error-bare"
@@ -410,8 +418,10 @@ class World(DuoWorld):
             self.wire_check(side, msg, op, op.enc["request"])
             self.next_id += 1
             op.inv_id = self.next_id
-            inv = M.Invocation(op.inv_id, self.reg_ids[op.uri], args=msg.args, kwargs=msg.kwargs, payload=msg.payload, enc_algo=msg.enc_algo,
-                               enc_key=msg.enc_key, enc_serializer=msg.enc_serializer, receive_progress=msg.receive_progress)
+            via_pfx = op.uri not in self.reg_ids
+            inv = M.Invocation(op.inv_id, self.reg_ids[self.pfx if via_pfx else op.uri], args=msg.args, kwargs=msg.kwargs, payload=msg.payload,
+                               enc_algo=msg.enc_algo, enc_key=msg.enc_key, enc_serializer=msg.enc_serializer,
+                               receive_progress=msg.receive_progress, procedure=op.uri if via_pfx else None)
             self.remember_cipher(msg.payload, op.uri)
             self.queue.append((self.r, inv, op, "invocation", op.enc["request"]))
         elif isinstance(msg, M.Yield):
